@@ -57,6 +57,8 @@ def number(rng, dp, nonneg=False, nonfinite_p=0.08, numpy_ok=False, limit=1e15):
     """(value, class)"""
     r = rng.random()
     if r < nonfinite_p:
+        if numpy_ok and rng.random() < 0.5:
+            return rng.choice([np.float32("nan"), np.float32("inf"), np.float16("-inf"), np.float64("nan")]), "nonfinite:np"
         return rng.choice([NAN, INF, -INF]), "nonfinite"
     unit = 10.0 ** -dp
     cls = rng.choice(["zero", "subnormal", "grid", "tie", "pow10", "int", "random", "small", "big", "np"])
@@ -83,8 +85,12 @@ def number(rng, dp, nonneg=False, nonfinite_p=0.08, numpy_ok=False, limit=1e15):
     elif cls == "big":
         v = rng.uniform(-1, 1) * 10 ** rng.randint(6, 15)
     elif cls == "np" and numpy_ok:
-        base = rng.uniform(-1000, 1000)
-        v = rng.choice([np.float64(base), np.float32(base), np.int64(int(base)), np.float32(0.1), np.float64(2.675)])
+        base = rng.uniform(-1, 1) * 10.0 ** rng.randint(-9, 4)
+        v = rng.choice([np.float64(base), np.float32(base), np.float16(base), np.longdouble(base),
+                        np.int64(int(base)), np.int32(int(base) % 1000), np.float32(0.1), np.float64(2.675),
+                        np.float32(base), np.float16(base)])
+        if isinstance(v, np.floating) and not np.isfinite(v):
+            v = np.float32(1.5)
         cls = "np:" + type(v).__name__
     else:
         v = rng.uniform(-1000, 1000)
@@ -154,7 +160,7 @@ def run_case(ctx, col, case):
     def emit(entry, fn, expect, valid=True, vals=()):
         """Run one emitting call. expect = [(label, value)] routed values."""
         call_repr = [entry, [_r(v) for v, _ in vals]]
-        nonfinite = any(isinstance(v, float) and not math.isfinite(v) for v, _ in vals)
+        nonfinite = any(isinstance(v, (float, np.floating)) and not math.isfinite(v) for v, _ in vals)
         if lex_new("helper", call_repr) is None:     # output of preparatory calls
             return False
         try:
@@ -232,7 +238,7 @@ def one_call(rng, g, dp, lab, emit, col):
             vals.append((v, cls)); expect.append(("F", v))
         if rng.random() < 0.3:
             key = rng.choice(["E", "e", "P", "Q"])
-            v, cls = N()
+            v, cls = N(numpy_ok=rng.random() < 0.5)
             kw[key] = v
             vals.append((v, cls)); expect.append((key.upper(), v))
         args = (rng.choice(["towards", "away"]),) if kind == "probe" else ()
@@ -333,7 +339,7 @@ def one_call(rng, g, dp, lab, emit, col):
 
 def _r(v):
     if isinstance(v, np.generic):
-        return f"{type(v).__name__}({v!r})"
+        return f"{type(v).__name__}({float(v)!r})" if isinstance(v, np.floating) else f"{type(v).__name__}({int(v)})"
     if isinstance(v, float) and not math.isfinite(v):
         return repr(v)
     if isinstance(v, float):
